@@ -546,6 +546,9 @@ func ruleTaintWire(c *Checker, rule string) {
 // C02
 
 func runC02(c *Checker) {
+	// "a prefix of what was written, or an error" is also a statement about the stream layer on top of
+	// the records: counts, retained remainders, pending-record handling (C15, C16) are part of it
+	importLayers(c, "C15", "C16")
 	w := c.w
 	enc := mboxFunc(c, "(*mailbox.cipherState).Encrypt")
 	dec := mboxFunc(c, "(*mailbox.cipherState).Decrypt")
